@@ -1,42 +1,42 @@
 (* The oracle that is run over implementation observations accepts every observation the model produces
   : it can only fire where the implementation leaves what the
    theorems establish. *)
-From Icv Require Import Base.Tac Perm.PmModel Perm.PmProofs Perm.PmObs.
+From Icv Require Import Base.Tac Perm.PmModel Perm.PmProofs Perm.PmJoins Perm.PmObs.
 Local Open Scope Z_scope.
 
 (* object names are unique per type (ConfigObject registry) *)
 Definition pm_inv_wf (inv : list pm_obj) : Prop :=
   forall o, In o inv -> pm_lookup inv (po_type o) (po_name o) = Some o.
 
-Lemma pm_name_one_lookup pf inv t n fr o fr' : pm_name_one pf inv t n fr = inr (o, fr') -> pm_lookup inv t n = Some o.
+Lemma pm_name_one_lookup G pf inv t n fr o fr' : pm_name_one G pf inv t n fr = inr (o, fr') -> pm_lookup inv t n = Some o.
 Proof.
   unfold pm_name_one. destruct (pm_lookup inv t n) as [o'|]; [|discriminate].
-  destruct (pm_evalf [] pf fr o') as [ns r]. destruct r; try discriminate. intros H; inversion H; reflexivity.
+  destruct (pm_evalf G pf fr o') as [ns r]. destruct r; try discriminate. intros H; inversion H; reflexivity.
 Qed.
 
-Lemma pm_name_list_named pf inv t : forall ns acc fr res,
-  pm_name_list pf inv t ns acc fr = inr res ->
+Lemma pm_name_list_named G pf inv t : forall ns acc fr res,
+  pm_name_list G pf inv t ns acc fr = inr res ->
   (forall x, In x acc -> In x res) /\ (forall n, In n ns -> exists o, pm_lookup inv t n = Some o /\ In o res).
 Proof.
   induction ns as [|m r IH]; intros acc fr res H; cbn in H.
   - inversion H; subst. split; [auto|intros n []].
-  - destruct (pm_name_one pf inv t m fr) as [e|[o fr']] eqn:E; [discriminate|].
+  - destruct (pm_name_one G pf inv t m fr) as [e|[o fr']] eqn:E; [discriminate|].
     destruct (IH _ _ _ H) as [Hm Hn]. split.
     + intros x Hx. apply Hm. apply in_or_app. left. assumption.
     + intros n [<-|Hin]; [|auto]. exists o. split; [eapply pm_name_one_lookup; eassumption|].
       apply Hm. apply in_or_app. right. left. reflexivity.
 Qed.
 
-Lemma pm_names_type_named pf inv q t acc res :
-  pm_names_type pf inv q t acc = inr res ->
+Lemma pm_names_type_named G pf inv q t acc res :
+  pm_names_type G pf inv q t acc = inr res ->
   (forall x, In x acc -> In x res) /\ (forall n, pm_names q t n -> exists o, pm_lookup inv t n = Some o /\ In o res).
 Proof.
   unfold pm_names_type, pm_names. intros H.
   destruct (pm_q_single q t) as [n0|] eqn:S.
-  - destruct (pm_name_one pf inv t n0 []) as [e|[o fr0]] eqn:E; [discriminate|].
-    pose proof (pm_name_one_lookup _ _ _ _ _ _ _ E) as L0.
+  - destruct (pm_name_one G pf inv t n0 []) as [e|[o fr0]] eqn:E; [discriminate|].
+    pose proof (pm_name_one_lookup _ _ _ _ _ _ _ _ E) as L0.
     destruct (pm_q_plural q t) as [ns|] eqn:P.
-    + destruct (pm_name_list_named _ _ _ _ _ _ _ H) as [Hm Hn]. split.
+    + destruct (pm_name_list_named _ _ _ _ _ _ _ _ H) as [Hm Hn]. split.
       * intros x Hx. apply Hm. apply in_or_app. left. assumption.
       * intros n [Hs|(ns' & Hp & Hin)].
         -- inversion Hs; subst. exists o. split; [assumption|]. apply Hm. apply in_or_app. right. left. reflexivity.
@@ -46,20 +46,20 @@ Proof.
       * intros n [Hs|(ns' & Hp & Hin)]; [|discriminate].
         inversion Hs; subst. exists o. split; [assumption|]. apply in_or_app. right. left. reflexivity.
   - destruct (pm_q_plural q t) as [ns|] eqn:P.
-    + destruct (pm_name_list_named _ _ _ _ _ _ _ H) as [Hm Hn]. split; [assumption|].
+    + destruct (pm_name_list_named _ _ _ _ _ _ _ _ H) as [Hm Hn]. split; [assumption|].
       intros n [Hs|(ns' & Hp & Hin)]; [discriminate|]. inversion Hp; subst. auto.
     + inversion H; subst. split; [auto|]. intros n [Hs|(ns' & Hp & Hin)]; discriminate.
 Qed.
 
-Lemma pm_by_names_named pf inv q : forall tys acc res,
-  pm_by_names pf inv q tys acc = inr res ->
+Lemma pm_by_names_named G pf inv q : forall tys acc res,
+  pm_by_names G pf inv q tys acc = inr res ->
   (forall x, In x acc -> In x res) /\
   (forall t n, In t tys -> pm_names q t n -> exists o, pm_lookup inv t n = Some o /\ In o res).
 Proof.
   induction tys as [|t r IH]; intros acc res H; cbn in H.
   - inversion H; subst. split; [auto|intros t n []].
-  - destruct (pm_names_type pf inv q t acc) as [e|acc'] eqn:E; [discriminate|].
-    destruct (pm_names_type_named _ _ _ _ _ _ E) as [Hm1 Hn1]. destruct (IH _ _ H) as [Hm2 Hn2]. split.
+  - destruct (pm_names_type G pf inv q t acc) as [e|acc'] eqn:E; [discriminate|].
+    destruct (pm_names_type_named _ _ _ _ _ _ _ E) as [Hm1 Hn1]. destruct (IH _ _ H) as [Hm2 Hn2]. split.
     + auto.
     + intros t' n [<-|Hin] Hnm; [|eauto]. destruct (Hn1 n Hnm) as (o & L & Ho). eauto.
 Qed.
@@ -74,15 +74,15 @@ Proof.
     destruct Hin as (n' & Heq & Hn'). inversion Heq; subst. split; [assumption|]. right. eauto.
 Qed.
 
-Theorem pm_oracle_accepts_model prov fast u perm tys q inv :
+Theorem pm_oracle_accepts_model G prov fast u perm tys q inv :
   perm <> [] -> pm_inv_wf inv ->
-  pm_oracle_q u perm tys q inv
-    (pm_observe prov (fst (pm_has_permission u perm)) (pm_filter_targets fast u perm tys q inv)) = true.
+  pm_oracle_q G u perm tys q inv
+    (pm_observe prov (fst (pm_has_permission u perm)) (pm_filter_targets G fast u perm tys q inv)) = true.
 Proof.
   intros Hne Hwf. unfold pm_oracle_q. destruct perm as [|c0 p0] eqn:Hp; [congruence|]. rewrite <- Hp in *.
   unfold pm_observe. cbn [pv_has pv_cons pv_res].
   rewrite pm_spec_has_correct. rewrite Bool.eqb_reflx. cbn [andb].
-  destruct (pm_filter_targets fast u perm tys q inv) as [c r] eqn:FT. cbn [fst snd].
+  destruct (pm_filter_targets G fast u perm tys q inv) as [c r] eqn:FT. cbn [fst snd].
   apply andb_true_intro. split.
   - destruct (pm_spec_has u perm) eqn:Hh; [reflexivity|].
     rewrite <- pm_spec_has_correct in Hh. unfold pm_filter_targets in FT.
@@ -90,8 +90,8 @@ Proof.
     { unfold pm_check_permission. destruct (pm_has_permission u perm) as [f pf]. cbn in Hh. subst f. reflexivity. }
     rewrite Hc in FT. inversion FT; subst. destruct prov; reflexivity.
   - destruct r as [objs|e]; [|reflexivity].
-    destruct (pm_only_permitted_clean _ _ _ _ _ _ _ _ FT) as (pf & Hc & Hall).
-    assert (forall o, In o objs -> pm_key_allowed u perm inv (pm_key_of o) = true) as Hadm.
+    destruct (pm_only_permitted_clean _ _ _ _ _ _ _ _ _ FT) as (pf & Hc & Hall).
+    assert (forall o, In o objs -> pm_key_allowed G u perm inv (pm_key_of o) = true) as Hadm.
     { intros o Ho. destruct (Hall o Ho) as [Hin Hev]. unfold pm_key_allowed, pm_key_of. cbn [fst snd].
       rewrite (Hwf o Hin). unfold pm_spec_allow. eapply pm_granted_allow; eassumption. }
     apply andb_true_intro. split.
@@ -99,8 +99,8 @@ Proof.
     + apply negb_true_iff. destruct (existsb _ (pm_named q tys)) eqn:X; [exfalso|reflexivity].
       apply existsb_exists in X. destruct X as ([t n] & Hin & Hf).
       apply pm_named_in in Hin. destruct Hin as [Ht Hn].
-      destruct (pm_filter_targets_ok _ _ _ _ _ _ _ _ FT) as (pf' & res & Hc' & Hbn & Hobjs).
-      destruct (pm_by_names_named _ _ _ _ _ _ Hbn) as [_ Hnamed].
+      destruct (pm_filter_targets_ok _ _ _ _ _ _ _ _ _ FT) as (pf' & res & Hc' & Hbn & Hobjs).
+      destruct (pm_by_names_named _ _ _ _ _ _ _ Hbn) as [_ Hnamed].
       destruct (Hnamed t n Ht Hn) as (o & L & Ho).
       assert (In o objs) as Hoo.
       { destruct Hobjs as [->|(t' & l & _ & _ & ->)]; [assumption|apply in_or_app; left; assumption]. }
@@ -112,10 +112,10 @@ Proof.
 Qed.
 
 (* HasPermission + allowed objects, and joins *)
-Theorem pm_oracle_perm_accepts_model u perm inv :
+Theorem pm_oracle_perm_accepts_model G u perm inv :
   pm_inv_wf inv ->
-  pm_oracle_perm u perm inv (fst (pm_has_permission u perm))
-    (map fst (filter (fun ke => negb (snd ke)) (pm_allows u perm inv))) = true.
+  pm_oracle_perm G u perm inv (fst (pm_has_permission u perm))
+    (map fst (filter (fun ke => negb (snd ke)) (pm_allows G u perm inv))) = true.
 Proof.
   intros Hwf. unfold pm_oracle_perm. destruct perm as [|c0 p0] eqn:Hp; [reflexivity|]. rewrite <- Hp.
   assert (perm <> []) as Hne by (rewrite Hp; discriminate).
@@ -124,16 +124,17 @@ Proof.
   apply filter_In in Hk. destruct Hk as [Hk Hb]. cbn in Hb. destruct b; [discriminate|]. cbn [fst].
   unfold pm_allows in Hk. destruct (pm_has_permission u perm) as [found pf] eqn:E. destruct found; [|destruct Hk].
   apply in_flat_map in Hk. destruct Hk as (o & Ho & Hk).
-  destruct (pm_eval_opt pf o) eqn:Ev; cbn in Hk; try (destruct Hk as [Hk|[]]; inversion Hk; subst; clear Hk); try destruct Hk.
+  destruct (pm_eval_opt G pf o) eqn:Ev; cbn in Hk; try (destruct Hk as [Hk|[]]; inversion Hk; subst; clear Hk); try destruct Hk.
   unfold pm_key_allowed, pm_key_of. cbn [fst snd]. rewrite (Hwf o Ho).
   eapply pm_granted_allow; [exact Hne| |exact Ev]. unfold pm_check_permission. rewrite E. reflexivity.
 Qed.
 
-Theorem pm_oracle_joins_accepts_model u inv l :
-  pm_inv_wf inv -> (forall o, In o l -> In o inv /\ pm_join_visible u o = true) ->
-  pm_oracle_joins u inv (map pm_key_of l) = true.
+Theorem pm_oracle_joins_accepts_model G u inv t sel all objs :
+  pm_oracle_joins G u inv (map snd (pm_joins G u inv t sel all objs)) = true.
 Proof.
-  intros Hwf H. unfold pm_oracle_joins. apply forallb_forall. intros k Hk. apply in_map_iff in Hk.
-  destruct Hk as (o & <- & Ho). destruct (H o Ho) as [Hin Hv]. unfold pm_key_allowed, pm_key_of. cbn [fst snd].
-  rewrite (Hwf o Hin). apply pm_join_only_permitted. assumption.
+  unfold pm_oracle_joins. apply forallb_forall. intros k Hk. apply in_map_iff in Hk. destruct Hk as ([v k'] & Hk & Hin).
+  cbn in Hk. subst k'. destruct (pm_joins_only_permitted G u inv t sel all objs v k Hin) as (j & W & <- & _ & A).
+  unfold pm_jkey_allowed, pm_jkey_of. cbn [fst snd]. destruct j as [o|tj n]; cbn [pm_jobj_type pm_jobj_name].
+  - cbn in W. rewrite W. exact A.
+  - cbn in W. destruct tj; [congruence|exact A..].
 Qed.
